@@ -24,9 +24,17 @@ def scratch():
     return _scratch
 
 
+def _die_with_parent():
+    try:
+        import ctypes, signal
+        ctypes.CDLL('libc.so.6').prctl(1, signal.SIGKILL)
+    except Exception:
+        pass
+
+
 def run(cmd, cwd=None, env=None, timeout=600, check=True, input=None):
     p = subprocess.run(cmd, cwd=cwd, env=env or GOENV, stdout=subprocess.PIPE, stderr=subprocess.PIPE,
-                       timeout=timeout, input=input, text=True)
+                       timeout=timeout, input=input, text=True, preexec_fn=_die_with_parent)
     if check and p.returncode != 0:
         raise RuntimeError('command failed (%d): %s\n%s\n%s' % (p.returncode, ' '.join(cmd), p.stdout[-4000:], p.stderr[-4000:]))
     return p
@@ -116,33 +124,78 @@ def go_run(dirpath, timeout=120):
 
 # ------------------------------------------------------------------ SMT session
 class Z3Session:
-    """One persistent solver process; queries are SMT-LIB text.  Any `(error` line makes the query inconclusive."""
+    """One persistent solver process; queries are SMT-LIB text.  Any `(error` line makes the query inconclusive.
+    z3's own :timeout/:rlimit are not honoured by every tactic, so a wall-clock watchdog kills and restarts the
+    process (replaying the assertion stack) when a query overruns; such a query counts as `unknown`."""
 
-    def __init__(self, timeout_ms=20000, binary=None):
-        self.p = subprocess.Popen([binary or Z3, '-in'], stdin=subprocess.PIPE, stdout=subprocess.PIPE,
-                                  stderr=subprocess.STDOUT, text=True, bufsize=1)
+    def __init__(self, timeout_ms=20000, binary=None, rlimit=150000000):
+        self.binary = binary or Z3
+        self.timeout_ms = timeout_ms
+        self.rlimit = rlimit
         self.queries = 0
         self.solver_s = 0.0
         self.errors = []
+        self.restarts = 0
         self.results = {'sat': 0, 'unsat': 0, 'unknown': 0}
-        self.send('(set-option :timeout %d)' % timeout_ms)
+        self.frames = [[]]
+        self._start()
+
+    def _start(self):
+        self.p = subprocess.Popen([self.binary, '-in'], stdin=subprocess.PIPE, stdout=subprocess.PIPE,
+                                  stderr=subprocess.STDOUT, bufsize=0, preexec_fn=_die_with_parent)
+        self._raw('(set-option :timeout %d)' % self.timeout_ms)
+        self._raw('(set-option :rlimit %d)' % self.rlimit)
+        self.buf = b''
+
+    def _raw(self, text):
+        try:
+            self.p.stdin.write((text + '\n').encode())
+        except BrokenPipeError:
+            pass
+
+    def _restart(self):
+        try:
+            self.p.kill()
+            self.p.wait(timeout=5)
+        except Exception:
+            pass
+        self.restarts += 1
+        self._start()
+        for i, fr in enumerate(self.frames):
+            if i > 0:
+                self._raw('(push 1)')
+            for c in fr:
+                self._raw(c)
 
     def send(self, text):
-        self.p.stdin.write(text + '\n')
+        self.frames[-1].append(text)
+        self._raw(text)
 
-    def ask(self, text):
+    def ask(self, text, record=False):
+        import select
         t0 = time.time()
-        self.p.stdin.write(text + '\n(echo "@@")\n')
-        self.p.stdin.flush()
-        lines = []
-        while True:
-            ln = self.p.stdout.readline()
-            if ln == '':
-                raise RuntimeError('solver died: ' + ''.join(lines)[-2000:])
-            if ln.strip() == '@@':
-                break
-            lines.append(ln)
-        out = ''.join(lines).strip()
+        if record:
+            self.frames[-1].append(text)
+        self._raw(text + '\n(echo "@@")')
+        deadline = t0 + self.timeout_ms / 1000.0 * 1.5 + 5
+        fd = self.p.stdout.fileno()
+        while b'@@\n' not in self.buf:
+            left = deadline - time.time()
+            if left <= 0:
+                self._restart()
+                self.solver_s += time.time() - t0
+                return 'unknown ; watchdog'
+            r, _, _ = select.select([fd], [], [], min(left, 1.0))
+            if r:
+                chunk = os.read(fd, 65536)
+                if not chunk:
+                    self._restart()
+                    self.solver_s += time.time() - t0
+                    return 'unknown ; solver died'
+                self.buf += chunk
+        i = self.buf.index(b'@@\n')
+        out = self.buf[:i].decode(errors='replace').strip()
+        self.buf = self.buf[i + 3:]
         self.solver_s += time.time() - t0
         if '(error' in out:
             self.errors.append(out[:500] + ' <= ' + text[-300:])
@@ -150,7 +203,7 @@ class Z3Session:
 
     def check(self, extra=''):
         self.queries += 1
-        r = self.ask(extra + '\n(check-sat)')
+        r = self.ask((extra + '\n' if extra else '') + '(check-sat)')
         last = r.strip().split('\n')[-1].strip() if r.strip() else 'unknown'
         if '(error' in r or last not in ('sat', 'unsat'):
             last = 'unknown'
@@ -161,21 +214,88 @@ class Z3Session:
         if not names:
             return {}
         r = self.ask('(get-value (%s))' % ' '.join(names))
-        return parse_values(r)
+        try:
+            return parse_values(r)
+        except Exception:
+            return {}
+
+    def solve(self, lines, get=None, exprs=None, portfolio=True):
+        """Int encoding first; if z3 answers unknown, the same query translated to 128-bit bit-vectors (vlib/int2bv.py)."""
+        from . import int2bv
+        bv_first = portfolio and any('int2bv' in ln for ln in lines) and not any('FloatingPoint' in ln for ln in lines)
+        tl = None
+        if bv_first:
+            tl = int2bv.translate(lines)
+            if tl is not None:
+                r2, model2, _ = self._solve_bv(tl, get)
+                if r2 != 'unknown':
+                    return r2, model2, None
+        r, model, vals = self.solve1(lines, get, exprs)
+        if r != 'unknown' or not portfolio or bv_first:
+            return r, model, vals
+        tl = int2bv.translate(lines)
+        if tl is None:
+            return r, model, vals
+        r2, model2, _ = self._solve_bv(tl, get)
+        if r2 == 'unknown':
+            return r, model, vals
+        return r2, model2, None
+
+    def _solve_bv(self, tl, get):
+        from . import int2bv
+        self.bv_attempts = getattr(self, 'bv_attempts', 0) + 1
+        r2, model2, _ = self.solve1(tl, get, None)
+        if r2 != 'unknown':
+            self.bv_decided = getattr(self, 'bv_decided', 0) + 1
+        fixed = {}
+        for k, v in model2.items():
+            if isinstance(v, int) and not isinstance(v, bool) and v >= (1 << (int2bv.W - 1)):
+                v -= 1 << int2bv.W
+            fixed[k] = v
+        return r2, fixed, None
+
+    def solve1(self, lines, get=None, exprs=None):
+        """One self-contained query in a fresh (non-incremental) solver state: z3 then uses its full tactic pipeline,
+        which decides the non-linear integer queries that the incremental core does not.  -> (verdict, model, expr values text)"""
+        self.frames = [[]]
+        self._raw('(reset)')
+        self._raw('(set-option :timeout %d)' % self.timeout_ms)
+        self._raw('(set-option :rlimit %d)' % self.rlimit)
+        for ln in lines:
+            self.send(ln)
+        t0 = time.time()
+        r = self.check()
+        dump = os.environ.get('VERIF_DUMP')
+        if dump and (r != 'unsat' or time.time() - t0 > 5):
+            os.makedirs(dump, exist_ok=True)
+            with open(os.path.join(dump, 'q%d_%d_%s.smt2' % (os.getpid(), self.queries, r)), 'w') as f:
+                f.write('\n'.join(lines) + '\n(check-sat)\n')
+        model, vals = {}, None
+        if r == 'sat':
+            if get:
+                model = self.model(get)
+            if exprs:
+                vals = self.ask('(get-value (%s))' % ' '.join(exprs))
+        return r, model, vals
 
     def push(self):
-        self.send('(push 1)')
+        self.frames.append([])
+        self._raw('(push 1)')
 
     def pop(self):
-        self.send('(pop 1)')
+        if len(self.frames) > 1:
+            self.frames.pop()
+        self._raw('(pop 1)')
 
     def close(self):
         try:
-            self.p.stdin.write('(exit)\n')
-            self.p.stdin.flush()
-            self.p.wait(timeout=5)
+            self._raw('(exit)')
+            self.p.wait(timeout=3)
         except Exception:
-            self.p.kill()
+            try:
+                self.p.kill()
+            except Exception:
+                pass
 
 
 def tokenize(s):
@@ -245,6 +365,8 @@ def input_decls(inputs):
     for name, d in inputs.items():
         if d.get('def') is not None:
             out.append('(define-fun %s () %s %s)' % (name, d['sort'], d['def']))
+            if d.get('assert'):
+                out.append('(assert %s)' % name)
             continue
         out.append('(declare-const %s %s)' % (name, d['sort']))
         if d.get('lo') is not None:
